@@ -5,6 +5,7 @@ import RactorModel.Lemmas.FactoryCountW
 import RactorModel.Lemmas.FactoryShape
 import RactorModel.Lemmas.FactoryDrain
 import RactorModel.Lemmas.FactoryHooks
+import RactorModel.Lemmas.FactoryActors
 
 /-!
 # C15 — Factory capacity controls: limits, rate, pool size, draining
@@ -212,6 +213,39 @@ theorem pool_shape (c : CaseCfg) (steps : List Step) :
   shapeInv_runSteps (init c) steps (shapeInv_init c)
 
 open Factory in
+/-- (live worker ACTORS = pool slots — `_partial`: finding F4 excluded by `noStaleRun`) For every
+configuration and EVERY sequence of operations in which no worker is killed while one of its completion
+reports is still unprocessed, as long as the factory has not entered `post_stop`:
+(1) every pool slot has a worker actor of its own (distinct slots, distinct actors) that is alive — or
+dead with its supervision event still waiting to be handled (then it is replaced in place);
+(2) every live worker actor is the worker of exactly such a slot, or it is idle and has been told to
+stop (it exits at its next turn). With `pool_shape` / `pool_converges` (slots = `0 … pool_size-1` once
+nobody has work): the live workers converge to the last requested size. -/
+theorem live_workers_are_pool_slots_partial (c : CaseCfg) (steps : List Step) (hns : noStaleRun (init c) steps = true) :
+    let w := (init c).runSteps steps
+    w.stopped = false →
+      (∀ p ∈ w.pool, ∃ a, w.env.getActor p.actor = some a ∧ a.wid = p.wid ∧ (a.alive = true ∨ p.actor ∈ w.env.sup)) ∧
+      (∀ p ∈ w.pool, ∀ q ∈ w.pool, p.actor = q.actor → p = q) ∧
+      (∀ aid a, w.env.getActor aid = some a → a.alive = true →
+        (∃ p ∈ w.pool, p.actor = aid ∧ p.wid = a.wid ∧ a.stopReq = false) ∨ (a.heldJobs = [] ∧ a.stopReq = true)) := by
+  intro w hs
+  have hc := (j_always c steps hns).core hs
+  refine ⟨?_, fun p hp q hq h => hc.actor_inj hp hq h, ?_⟩
+  · intro p hp
+    obtain ⟨a, g, hw, _, hd⟩ := hc.sa p hp
+    refine ⟨a, g, hw, ?_⟩
+    cases hx : a.alive with
+    | true => exact Or.inl rfl
+    | false => exact Or.inr (hd hx).1
+  · intro aid a g hal
+    by_cases hslot : ∃ p ∈ w.pool, p.actor = aid
+    · obtain ⟨p, hp, hpa⟩ := hslot
+      obtain ⟨x, gx, hxw, hxa, _⟩ := hc.sa p hp
+      rw [hpa, g] at gx; cases gx
+      exact Or.inl ⟨p, hp, hpa, hxw.symm, (hxa hal).1⟩
+    · exact Or.inr (hc.free aid a g hal (fun p hp hpa => hslot ⟨p, hp, hpa⟩))
+
+open Factory in
 /-- (convergence) once no slot has work, the pool is exactly the slots `0 … pool_size - 1`,
 one worker each — whatever sequence of resizes and deaths led there. -/
 theorem pool_converges (c : CaseCfg) (steps : List Step)
@@ -413,6 +447,7 @@ end C15
 #print axioms C15.limit_worker_oldest
 #print axioms C15.rate_limited_dispatch
 #print axioms C15.pool_shape
+#print axioms C15.live_workers_are_pool_slots_partial
 #print axioms C15.pool_converges
 #print axioms C15.resize_sets_size
 #print axioms C15.drain_is_forever
